@@ -176,6 +176,7 @@ type c25Run struct {
 	cdm    *ChunkDiskMapper
 	chunks map[int]*c25Chunk
 	lost   map[int]bool
+	mayGo  map[int]bool // chunks in files below some Truncate(n) issued so far
 	fails  []*c25Fail
 	rnd    *rand.Rand
 	sweep  bool
@@ -244,6 +245,9 @@ func (r *c25Run) readAll(st c25Step, where string) {
 			r.fail("drift", "", fmt.Sprintf("%s: chunk %d reads back although the transcription predicts %q", where, id, pred))
 		case st.KF && pred != "ok":
 			r.fail("violation", "kf1-cut-sequence-mismatch", fmt.Sprintf("%s: chunk %d (ref %d, write error: %v) cannot be read back: %v", where, id, c.ref, c.werr, err))
+		case r.mayGo[id]:
+			// the chunk's file is older than a Truncate(n) that has been issued: the property lets it go
+			r.fail("drift", "", fmt.Sprintf("%s: chunk %d (ref %d) of a file below a truncation point is gone although the model keeps that file", where, id, c.ref))
 		default:
 			detail := "different bytes"
 			if err != nil {
@@ -450,6 +454,11 @@ func (r *c25Run) replay(b c25Beh) {
 			for _, id := range st.Lost {
 				r.lost[id] = true
 			}
+			for id, c := range r.chunks {
+				if seq, _ := c.ref.Unpack(); c.written && seq < st.N {
+					r.mayGo[id] = true
+				}
+			}
 		case "WPop":
 			r.gate.release()
 			if err := r.gate.wait("cwq.job.popped"); err != nil {
@@ -496,6 +505,20 @@ func (r *c25Run) replay(b c25Beh) {
 			}
 			ids, bad, err := r.iterate(r.cdm)
 			ids, extra := r.liveOnly(ids)
+			// chunks of files below an issued truncation point may legitimately be gone even if the model keeps the file
+			want := []int{}
+			seen := map[int]bool{}
+			for _, id := range ids {
+				seen[id] = true
+			}
+			for _, id := range st.Iter {
+				if seen[id] || !r.mayGo[id] {
+					want = append(want, id)
+				} else {
+					r.fail("drift", "", fmt.Sprintf("%s: chunk %d of a file below a truncation point is not iterated although the model keeps that file", where, id))
+				}
+			}
+			st.Iter = want
 			if len(extra) > 0 {
 				// files the model considers truncated are still there: the property allows keeping more
 				r.fail("drift", "", fmt.Sprintf("%s: iteration also yields chunks %v of files the model has truncated", where, extra))
@@ -514,7 +537,9 @@ func (r *c25Run) replay(b c25Beh) {
 		for _, c := range r.chunks {
 			if c.werr != nil && !st.KF {
 				r.fail("violation", "write-error", fmt.Sprintf("%s: asynchronous write of chunk %d failed: %v", where, c.id, c.werr))
-				c.werr = nil
+				// the mapper is in an undefined state now (references may point into unwritten parts of an
+				// oversized m-mapping: Chunk(ref) can die with SIGBUS): give up this behaviour
+				return
 			}
 		}
 		r.readAll(st, "after "+where)
@@ -553,7 +578,7 @@ func TestVerifC25Replay(t *testing.T) {
 				run := int64(bi + 1)
 				r := &c25Run{dir: filepath.Join(scratch, fmt.Sprintf("c25-%d", bi)), run: run,
 					gate:   c25NewGate(),
-					chunks: map[int]*c25Chunk{}, lost: map[int]bool{},
+					chunks: map[int]*c25Chunk{}, lost: map[int]bool{}, mayGo: map[int]bool{},
 					rnd:   rand.New(rand.NewSource(verifh.Seed()*1000003 + int64(bi))),
 					sweep: (bi+int(verifh.Seed()))%sweepEvery == 0}
 				c25Gates.Store(run, r.gate)
